@@ -283,7 +283,12 @@ def scan_source(src_dir):
                 seg = pre[k.end():]
                 if seg.count('{') > seg.count('}'):
                     encl = k.group(1)
-            full = '::'.join(x for x in (mod, encl, name) if x)
+            inline = []   # inline modules (`mod name { ... }`) still open at this position
+            for mm_ in re.finditer(r'\bmod\s+(\w+)\s*\{', pre):
+                seg = pre[mm_.end():]
+                if 1 + seg.count('{') - seg.count('}') > 0:
+                    inline.append(mm_.group(1))
+            full = '::'.join(x for x in [mod] + inline + [encl, name] if x)
             (enums if kind == 'enum' else structs)[full] = names
         for m in re.finditer(r'const (\w+): &str = "((?:[^"\\]|\\.)*)";', txt):
             raw = m.group(2)
@@ -339,11 +344,13 @@ def build_impls(funcs, repo_root):
         else:
             trait = text
             ty = None
-            for ln in lines[l1 - 1:]:
-                mm = re.match(r'\s*(?:pub(?:\([^)]*\))?\s+)?(?:struct|enum)\s+(\w+)', ln)
+            for k, ln in enumerate(lines[l1 - 1:]):
+                mm = re.search(r'\b(?:struct|enum)\s+(\w+)', ln[c2 - 1:] if k == 0 and l1 == l2 else ln)
                 if mm:
                     ty = mm.group(1)
                     break
+            if ty is None:
+                continue
         full_ty = (mod + '::' if mod else '') + ty.split('::')[-1]
         if trait:
             impls[(full_ty, trait.split('::')[-1], rest)] = name
@@ -371,7 +378,7 @@ def load_crate(mir_path, repo_root, src_dir):
 
 
 # ---------------- interpreter -----------------
-STEP_BUDGET = 3_000_000
+STEP_BUDGET = 3_000_000   # per path; MirImpl raises it in proportion to the document size (step_limit)
 
 
 class Interp:
@@ -393,6 +400,7 @@ class Interp:
 
     # ------------- path machinery --------------
     def start_path(self, prefix, timeout_ms=20000):
+        self.step_limit = STEP_BUDGET
         self.prefix = prefix
         self.decisions = []
         self.solver = z3.Solver()
@@ -558,9 +566,30 @@ class Interp:
                 lst, base, n = v, 0, len(v)
             else:
                 raise Unsupported('index of ' + type(v).__name__)
-            if idx >= n:
+            if k == 'constindex' and idx < 0:
+                idx = n + idx     # `[-1 of 2]`: ConstantIndex counted from the end (slice patterns `[.., last]`)
+            if idx >= n or idx < 0:
                 raise RustPanic(f'index out of bounds: the len is {n} but the index is {idx}')
             return Slot(lst, base + idx)
+        if k == 'subslice':
+            # slice patterns `[first, rest @ ..]` / `[.., a, b]`:  [from:]  [from:-to]  [:-to]
+            v = self.resolve(fr, pl[1]).get()
+            if isinstance(v, VecObj):
+                lst, base, n = v.items, 0, len(v.items)
+            elif isinstance(v, SliceRef):
+                lst, base, n = v.lst, v.start, (len(v.lst) if v.end is None else v.end) - v.start
+            elif isinstance(v, Agg):
+                lst, base, n = v, 0, len(v)
+            else:
+                raise Unsupported('subslice of ' + type(v).__name__)
+            m = re.match(r'^(\d*):(-?\d*)$', pl[2].strip())
+            if not m:
+                raise Unsupported('subslice ' + pl[2])
+            lo = int(m.group(1) or 0)
+            hi = n if m.group(2) == '' else (n + int(m.group(2)) if m.group(2).startswith('-') else int(m.group(2)))
+            if lo > hi or hi > n:
+                raise RustPanic('slice pattern out of range')
+            return Slot([SliceRef(lst, base + lo, base + hi)], 0)
         raise Unsupported('place ' + str(pl))
 
     def optype(self, fr_types, op):
@@ -627,6 +656,9 @@ class Interp:
         mc = getattr(self.crate, 'mir_consts', {})
         if c in mc and mc[c] != c:
             return self.operand(fr, ('const', mc[c]), f)
+        fc = self.funcs.get(c) or self.funcs.get(strip_generics(c))
+        if fc is not None and not fc.params and getattr(fc, 'raw_header', '').startswith('const '):
+            return self.call(fc.name, [])
         sc = strip_generics(c)
         if sc in self.consts:
             return self.consts[sc]
@@ -748,6 +780,10 @@ class Interp:
         f = self.funcs[fname]
         self.funcs_hit.add(fname)
         fr = {}
+        for n_, ty_ in f.locals.items():
+            # zero-sized values are never assigned in MIR: a non-capturing closure held in a local exists from the start
+            if isinstance(ty_, str) and ty_.startswith('{closure@'):
+                fr[n_] = Closure(ty_, [])
         for p, a in zip(f.params, args):
             fr[p] = a
         bb = 'bb0'
@@ -762,7 +798,7 @@ class Interp:
                 elif st[0] == 'unsupported':
                     raise Unsupported('MIR statement form: ' + st[1])
             self.steps += len(stmts) + 1
-            if self.steps > STEP_BUDGET:
+            if self.steps > getattr(self, 'step_limit', STEP_BUDGET):
                 raise RustPanic('step budget exceeded (non-termination?)')
             k = term[0]
             if k == 'goto':
@@ -832,11 +868,11 @@ class Interp:
         if k == 'tuple':
             return Agg(self.operand(fr, o, f) for o in rv[1])
         if k == 'array':
-            return Agg(self.operand(fr, o, f) for o in rv[1])
+            return TAgg('[array]', [self.operand(fr, o, f) for o in rv[1]])
         if k == 'repeat':
             v = self.operand(fr, rv[1], f)
             n = int(re.match(r'\s*(\d+)', rv[2]).group(1))
-            return Agg(cp(v) for _ in range(n))
+            return TAgg('[array]', [cp(v) for _ in range(n)])
         if k == 'adt':
             path = rv[1]
             vals = [self.operand(fr, o, f) for o in rv[2]]
@@ -957,7 +993,8 @@ class Interp:
                 return self.call(alt[0], argv)
             if recv_ty.startswith('dyn '):
                 recv = deref(argv[0])
-                key = (getattr(recv, 'ty', None), trait.split('::')[-1], meth)
+                rty = recv.path if isinstance(recv, FnItem) else getattr(recv, 'ty', None)   # a unit struct value is a bare path
+                key = (strip_generics(rty) if rty else None, trait.split('::')[-1], meth)
                 if key in self.impls:
                     return self.call(self.impls[key], argv)
                 raise Unsupported(f'dyn dispatch {key}')
@@ -968,6 +1005,11 @@ class Interp:
                 return self.call(short, argv)
             if short in self.impls:
                 return self.call(self.impls[short], argv)
+        mc = re.match(r'<(\{closure@.*\}) as std::ops::(?:Fn|FnMut|FnOnce)>::(?:call|call_mut|call_once)$', name)
+        if mc:
+            # closure called through the Fn* traits: (closure or &closure, argument tuple)
+            args = argv[1]
+            return self.call_closure(argv[0], list(args) if isinstance(args, Agg) else [args])
         mdl = self.models.lookup(name)
         if mdl is None:
             # a local holding a closure / fn item called directly:  _7(move _8)
